@@ -42,7 +42,10 @@ type (
 	}
 	EIndex struct{ X, I Expr }
 	ESlice struct{ X, Lo, Hi Expr }
-	EOld   struct{ X Expr }
+	EOld   struct {
+		X     Expr
+		Entry bool // entry(e): the state at the entry of the function under verification (old(e) in a `ghost at call` statement means the state just before that call)
+	}
 	ECond  struct{ C, A, B Expr }
 	EQuant struct {
 		Forall bool
@@ -87,7 +90,12 @@ func (e *ESlice) String() string {
 	}
 	return e.X.String() + "[" + lo + ":" + hi + "]"
 }
-func (e *EOld) String() string   { return "old(" + e.X.String() + ")" }
+func (e *EOld) String() string {
+	if e.Entry {
+		return "entry(" + e.X.String() + ")"
+	}
+	return "old(" + e.X.String() + ")"
+}
 func (e *EDeref) String() string { return "*" + e.X.String() }
 func (e *ECond) String() string {
 	return "(" + e.C.String() + " ? " + e.A.String() + " : " + e.B.String() + ")"
@@ -656,7 +664,14 @@ func (p *parser) parsePrimary() Expr {
 			p.expect("(")
 			e := p.parseExpr()
 			p.expect(")")
-			return &EOld{e}
+			return &EOld{X: e}
+		case "entry":
+			if p.isOp("(") {
+				p.expect("(")
+				e := p.parseExpr()
+				p.expect(")")
+				return &EOld{X: e, Entry: true}
+			}
 		case "forall", "exists":
 			p.p--
 			return p.parseQuant()
